@@ -19,7 +19,12 @@ PID = "C17"
 PROPS_MODULE = "NumbersModel.Props.C17"
 THEOREMS = [f"NumbersModel.Props.C17.{t}" for t in (
     "load_error_closed", "load_error_closed_no_escalation", "open_error_closed", "store_blob_closed",
-    "store_blob_sniff_raises", "open_zipfile_translates", "document_open_closed", "document_open_ok")]
+    "store_blob_sniff_raises", "open_zipfile_translates", "document_open_closed", "document_open_ok",
+    # the loader as py2lean regenerates it from iwork.py / containers.py on every run, proved equal to the model for every
+    # behaviour of the externals, and the clauses restated over the translation
+    "Src.src_load_eq_model", "Src.src_open_eq_model", "Src.src_stages_eq_model", "Src.src_load_error_closed",
+    "Src.src_open_error_closed", "Src.src_store_blob_closed", "Src.src_open_zipfile_translates")]
+TRANSLATED_GROUPS = ("Load",)
 PARTIAL: dict[str, str] = {}
 RULE = ("a case is one loading scenario: either a scripted assignment of an outcome (return value or one of ~22 exception "
         "classes) to every external call of the loader, run through the real ObjectStore/IWork code with those externals "
@@ -43,7 +48,15 @@ MANIFEST = {
             "call is covered: document_open_closed treats the eager construction of sheets and tables after the container is "
             "loaded as one more stage that may raise ANYTHING (objects of a member kept as a blob are simply absent) and "
             "proves the constructor's boundary closes it too; 881 of 26 000 damaged files of the thorough tier used to "
-            "escape there with KeyError / AttributeError (fix 945efed).",
+            "escape there with KeyError / AttributeError (fix 945efed). Second tie: the exception flow itself is additionally "
+            "TRANSLATED from iwork.py / containers.py on every run (harness/py2lean.py group Load -> Gen/TrLoad.lean: "
+            "ObjectStore.__init__, IWork.open, _open, document_version, _open_zipfile, _read_objects_from_zipfile, "
+            "_read_objects_from_package, _store_blob; try / except X as e: raise Y from e is a match on the outcome with the "
+            "classes as written, every call that leaves the library is a field of the same externals record) and proved equal to "
+            "the model for EVERY behaviour of the externals (Src.src_load_eq_model, src_open_eq_model, src_stages_eq_model); "
+            "load_error_closed / open_error_closed / store_blob_closed / open_zipfile_translates are restated over the "
+            "translation (Src.src_*), and every scripted / recorded scenario also goes through the translated definitions "
+            "(trdriver).",
     "note": "scope: every exception that leaves Document(path) counts (the property's first sentence: opening either yields a "
             "document or fails with a documented error type); before the extension phase exceptions raised after "
             "ObjectStore.__init__ had returned were only counted (`late_failures`) - that was the check demanding less than "
@@ -55,6 +68,11 @@ ASSUMPTIONS = [
     "handler callbacks store_object/store_file (dict assignments) and allowed_format/allowed_version on a str do not raise",
     "BaseException subclasses that are not Exception (KeyboardInterrupt, SystemExit) are out of scope",
     "file names are compared with ASCII lower-casing in the model",
+    "translated definitions: the semantics py2lean / Py/Trans.lean give to the Python subset (try/except as a match on the PyM "
+    "outcome, handlers tried in order, bare raise re-raises, the handler state threaded through method calls, self._zipf / "
+    "self._is_package as Optionals that raise AttributeError while unset, recursion on fuel) and the extern laws of "
+    "Model/LoaderSrc.lean (the flattened package walk, an opened ZipFile as its id, a decoded segment as (identifier, "
+    "len(objects))), each named at its TARGETS entry",
 ]
 
 ALLOWED_NAMES = ("FileError", "FileFormatError", "UnsupportedError")
@@ -1095,7 +1113,7 @@ def scripted_suite(ctx: Ctx, base_zip: dict, base_pkg: dict):
                               {"op": "scripted", "scenario": scn_to_json(s)})
         ctx.mark(("scripted", req[-1]))
     ctx.correspond("scripted fault injection: every external call site x 24 exception classes, decoded-file shapes, "
-                   "structural variants, package form, random multi-faults", req, out)
+                   "structural variants, package form, random multi-faults", req, out, translated=True)
     return len(scns)
 
 
@@ -1160,7 +1178,7 @@ def run(ctx: Ctx):
     stats: dict = {}
     base_zip, base_pkg, healthy = base_scenarios()
     ctx.correspond("healthy fixtures (zip form test-1, package form test-5): recorded externals replayed in the model",
-                   [h[0] for h in healthy], [h[1] for h in healthy])
+                   [h[0] for h in healthy], [h[1] for h in healthy], translated=True)
     if any(h[2] != "ok" for h in healthy):
         # a sound fixture no longer loads: the tie is broken; no scripted suite can be derived from it
         ctx.notes.append("healthy fixture does not load: " + "; ".join(f"{h[1]} ({h[2]})" for h in healthy))
@@ -1172,7 +1190,7 @@ def run(ctx: Ctx):
     req = [encode(base_zip), encode(base_pkg)]
     out = [run_scripted({k: v for k, v in base_zip.items() if not k.startswith("exc_")}),
            run_scripted({k: v for k, v in base_pkg.items() if not k.startswith("exc_")})]
-    ctx.correspond("healthy recordings (zip form, package form) replayed through scripted externals", req, out)
+    ctx.correspond("healthy recordings (zip form, package form) replayed through scripted externals", req, out, translated=True)
     n_scripted = scripted_suite(ctx, base_zip, base_pkg)
     docstage_suite(ctx)
     ctx.extra["scripted_scenarios"] = n_scripted
@@ -1218,7 +1236,7 @@ def run(ctx: Ctx):
                 nfaults += 1
                 ctx.mark(("fault", doc, repr(sorted(f.items()))))
                 if sum(len(r) for r in req) > 30_000_000:
-                    ctx.correspond("byte-level faults on real documents: recorded externals replayed in the model", req, out)
+                    ctx.correspond("byte-level faults on real documents: recorded externals replayed in the model", req, out, translated=True)
                     req, out = [], []
         # ---- path-level faults -------------------------------------------------------------------------
         for kind in ("missing", "empty-file", "empty-dir", "dir-wrong-suffix", "name-too-long", "file-in-dir-form",
@@ -1285,7 +1303,7 @@ def run(ctx: Ctx):
     finally:
         shutil.rmtree(tmp, ignore_errors=True)
     if req:
-        ctx.correspond("byte-level faults on real documents: recorded externals replayed in the model", req, out)
+        ctx.correspond("byte-level faults on real documents: recorded externals replayed in the model", req, out, translated=True)
     # the documented outcome for the encrypted fixture
     enc = data / "test-issue-93.numbers"
     if enc.exists():
@@ -1302,7 +1320,7 @@ def run(ctx: Ctx):
         req, out = [], []
         observe(ctx, p, {"op": "fixture", "document": p.name, "fault": "none"}, req, out, stats, model=True)
         if req:
-            ctx.correspond("fixtures as shipped (valid and invalid): recorded externals replayed in the model", req, out)
+            ctx.correspond("fixtures as shipped (valid and invalid): recorded externals replayed in the model", req, out, translated=True)
         nfix += 1
     ctx.extra["faults_applied"] = nfaults
     ctx.extra["outcomes"] = {k: v for k, v in stats.items() if isinstance(v, int)}
